@@ -122,7 +122,8 @@ func (l *maximumWaitVehicleConstraintImpl) EstimateIsViolated(
 		if !isDependentOnTime &&
 			stopPositionsCount == 0 &&
 			to.IsPlanned() &&
-			arrival == to.ArrivalValue() {
+			arrival == to.ArrivalValue() &&
+			previousEnd == to.EndValue() {
 			// Nothing changes from here on: the waits of the remaining stops
 			// are the ones already accumulated on the vehicle.
 			remainingWait := vehicle.Last().ConstraintData(l).(*maximumWaitVehicleConstraintData).accumulatedWait -
